@@ -47,6 +47,7 @@ type CertSpec struct {
 	NoSKI      bool
 	SKI        []byte // overrides the key-derived subject key identifier
 	RawSubject []byte // DER subject copied verbatim (exact look-alike of another certificate's name)
+	AKI        []byte // authority key identifier written into the certificate instead of the issuer's subject key identifier (it is only a hint)
 }
 
 func intelName(cn string) pkix.Name {
@@ -72,7 +73,7 @@ var (
 // MakeCert creates (memoised) a certificate for spec issued by issuer (nil = self-signed).
 func MakeCert(spec CertSpec, issuer *Cert) *Cert {
 	key := DeriveKey(spec.KeyLabel)
-	ck := fmt.Sprintf("%s|%s|%x|%d|%d|%v|%v|%d|%v|%x", spec.CN, spec.KeyLabel, spec.Serial, spec.NotBefore.Unix(), spec.NotAfter.Unix(), spec.CA, spec.CRLDP, len(spec.ExtraExt), spec.NoSKI, append(append([]byte{}, spec.SKI...), spec.RawSubject...))
+	ck := fmt.Sprintf("%s|%s|%x|%d|%d|%v|%v|%d|%v|%x|aki:%x", spec.CN, spec.KeyLabel, spec.Serial, spec.NotBefore.Unix(), spec.NotAfter.Unix(), spec.CA, spec.CRLDP, len(spec.ExtraExt), spec.NoSKI, append(append([]byte{}, spec.SKI...), spec.RawSubject...), spec.AKI)
 	for _, e := range spec.ExtraExt {
 		ck += fmt.Sprintf("|%x%v", sha256.Sum256(e.Value), e.Critical)
 	}
@@ -116,6 +117,13 @@ func MakeCert(spec CertSpec, issuer *Cert) *Cert {
 	if issuer != nil {
 		parent = issuer.X
 		signer = issuer.Key
+		if spec.AKI != nil {
+			// the standard library copies the parent's subject key identifier unless the parent has none
+			pc := *issuer.X
+			pc.SubjectKeyId = nil
+			parent = &pc
+			tmpl.AuthorityKeyId = spec.AKI
+		}
 	}
 	der, err := x509.CreateCertificate(nil, tmpl, parent, &key.Pub, signer)
 	if err != nil {
@@ -167,6 +175,7 @@ type PKISpec struct {
 	RootCRLDP      []string
 	SameSigner     bool // QE identity signed by the same certificate as TCB info
 	QeSameKey      bool // QE identity signer is a second certificate (own serial) for the TCB signer's key: same subject key identifier
+	OddAKI         bool // intermediate and collateral signers carry an authority key identifier that is NOT the root's subject key identifier
 	RootKeyLabel   string
 	RootSKI        []byte // subject key identifier copied onto the root (look-alike of another root)
 	RootRawSubject []byte
@@ -218,8 +227,12 @@ func NewPKI(spec PKISpec) *PKI {
 	rw, iw, tw, qw := orWide(spec.RootW), orWide(spec.IntW), orWide(spec.TcbW), orWide(spec.QeW)
 	p := &PKI{Spec: spec}
 	p.Root = MakeCert(CertSpec{CN: CNRoot, KeyLabel: rk, Serial: serialOr(spec.RootSerial, spec.Seed+"/root"), NotBefore: rw.NotBefore, NotAfter: rw.NotAfter, CA: true, CRLDP: spec.RootCRLDP, SKI: spec.RootSKI, RawSubject: spec.RootRawSubject}, nil)
-	p.Int = MakeCert(CertSpec{CN: spec.IntCN, KeyLabel: spec.Seed + "/int", Serial: serialOr(spec.IntSerial, spec.Seed+"/int"), NotBefore: iw.NotBefore, NotAfter: iw.NotAfter, CA: true, CRLDP: spec.RootCRLDP}, p.Root)
-	p.TcbSig = MakeCert(CertSpec{CN: CNTcbSigner, KeyLabel: spec.Seed + "/tcb", Serial: serialOr(spec.TcbSerial, spec.Seed+"/tcb"), NotBefore: tw.NotBefore, NotAfter: tw.NotAfter, CRLDP: spec.RootCRLDP}, p.Root)
+	var aki []byte
+	if spec.OddAKI {
+		aki = []byte{0xa1, 0xa2, 0xa3, 0xa4, 0xa5, 0xa6, 0xa7, 0xa8, 0xa9, 0xaa, 0xab, 0xac, 0xad, 0xae, 0xaf, 0xb0, 0xb1, 0xb2, 0xb3, 0xb4}
+	}
+	p.Int = MakeCert(CertSpec{CN: spec.IntCN, KeyLabel: spec.Seed + "/int", Serial: serialOr(spec.IntSerial, spec.Seed+"/int"), NotBefore: iw.NotBefore, NotAfter: iw.NotAfter, CA: true, CRLDP: spec.RootCRLDP, AKI: aki}, p.Root)
+	p.TcbSig = MakeCert(CertSpec{CN: CNTcbSigner, KeyLabel: spec.Seed + "/tcb", Serial: serialOr(spec.TcbSerial, spec.Seed+"/tcb"), NotBefore: tw.NotBefore, NotAfter: tw.NotAfter, CRLDP: spec.RootCRLDP, AKI: aki}, p.Root)
 	if spec.SameSigner {
 		p.QeSig = p.TcbSig
 	} else {
@@ -227,9 +240,21 @@ func NewPKI(spec PKISpec) *PKI {
 		if spec.QeSameKey {
 			ql = spec.Seed + "/tcb"
 		}
-		p.QeSig = MakeCert(CertSpec{CN: CNTcbSigner, KeyLabel: ql, Serial: serialOr(spec.QeSerial, spec.Seed+"/qesig"), NotBefore: qw.NotBefore, NotAfter: qw.NotAfter, CRLDP: spec.RootCRLDP}, p.Root)
+		p.QeSig = MakeCert(CertSpec{AKI: aki, CN: CNTcbSigner, KeyLabel: ql, Serial: serialOr(spec.QeSerial, spec.Seed+"/qesig"), NotBefore: qw.NotBefore, NotAfter: qw.NotAfter, CRLDP: spec.RootCRLDP}, p.Root)
 	}
 	return p
+}
+
+// RootEdition returns another certificate of this PKI's root CA: same name, same key, same validity, another serial
+// number (a re-issued / renewed root which a relying party may trust next to the first one).
+func (p *PKI) RootEdition(n int) *Cert {
+	spec := p.Spec
+	rk := spec.RootKeyLabel
+	if rk == "" {
+		rk = spec.Seed + "/root"
+	}
+	rw := orWide(spec.RootW)
+	return MakeCert(CertSpec{CN: CNRoot, KeyLabel: rk, Serial: serialOr(nil, fmt.Sprintf("%s/root-edition-%d", spec.Seed, n)), NotBefore: rw.NotBefore, NotAfter: rw.NotAfter, CA: true, CRLDP: spec.RootCRLDP, SKI: spec.RootSKI, RawSubject: spec.RootRawSubject}, nil)
 }
 
 // Pool returns a cert pool holding exactly this PKI's root.
@@ -256,6 +281,7 @@ type LeafSpec struct {
 	CN          string
 	CA          bool
 	CRLDP       []string
+	AKI         []byte // see CertSpec.AKI
 }
 
 // MakeLeaf issues a PCK leaf from issuer.
@@ -275,7 +301,7 @@ func MakeLeaf(issuer *Cert, ls LeafSpec) *Cert {
 		e.Critical = ls.SgxCritical
 		ext = []pkix.Extension{e}
 	}
-	return MakeCert(CertSpec{CN: cn, KeyLabel: ls.KeyLabel, Serial: serialOr(ls.Serial, ls.KeyLabel), NotBefore: w.NotBefore, NotAfter: w.NotAfter, CA: ls.CA, CRLDP: dp, ExtraExt: ext}, issuer)
+	return MakeCert(CertSpec{CN: cn, KeyLabel: ls.KeyLabel, Serial: serialOr(ls.Serial, ls.KeyLabel), NotBefore: w.NotBefore, NotAfter: w.NotAfter, CA: ls.CA, CRLDP: dp, ExtraExt: ext, AKI: ls.AKI}, issuer)
 }
 
 // ChainPEM concatenates PEM encodings.
